@@ -430,3 +430,109 @@ def check_float_reads_every_digit(ctx, res, config="all"):
         res.note("R9-float-readset: no digit loop found in to_f64/to_f32 (helpers inlined) - the read set of the conversion is not decided")
     res.count("float conversion digit loops", n_loops)
     res.clause("R9-float: the digit loop of to_f64/to_f32 leaves before exhaustion only on a condition computed from the digits read (every digit can reach the sticky bit)")
+
+
+def _croot(b, l, depth=0):
+    """copy root of a local: through plain moves and `.0` of an overflow-checked operation's own result"""
+    for _ in range(20):
+        ds = b.defs().get(l, [])
+        if len(ds) != 1 or ds[0][0] != "assign":
+            return l
+        rv = ds[0][3]["rv"]
+        if rv["k"] == "use" and rv["op"]["k"] != "const":
+            pl = rv["op"]["place"]
+            if not pl["proj"]:
+                l = pl["local"]
+                continue
+            if len(pl["proj"]) == 1 and pl["proj"][0]["k"] == "field" and pl["proj"][0]["idx"] == 0:
+                d2 = b.defs().get(pl["local"], [])
+                if len(d2) == 1 and d2[0][0] == "assign" and d2[0][3]["rv"]["k"] == "binop" and d2[0][3]["rv"]["op"].endswith("WithOverflow"):
+                    return ("ovf", pl["local"])
+        return l
+    return l
+
+
+def _binop_of(b, l):
+    """the binop that computes local l (through copies and the `.0` of checked arithmetic), or None"""
+    r = _croot(b, l)
+    if isinstance(r, tuple):
+        return b.defs()[r[1]][0][3]["rv"]
+    ds = b.defs().get(r, [])
+    if len(ds) == 1 and ds[0][0] == "assign" and ds[0][3]["rv"]["k"] == "binop":
+        return ds[0][3]["rv"]
+    return None
+
+
+def check_float_position_tracking(ctx, res, config="all"):
+    """The float conversion walks the digits from the top with a position `bits`; the number of significant bits of the current
+    digit is `(bits - 1) % BITS + 1`, which is BITS for every digit but the first *only if* the position is moved on by exactly
+    that number after each digit.  Moved on by anything else (the number of bits that still fitted into the 64-bit window),
+    the following digits are taken for partial digits and only their low bits reach the round-to-odd test."""
+    facts = ctx.facts(config)
+    n = 0
+    for b0 in facts.bodies:
+        if b0.name not in ("to_f64", "to_f32") or "BigUint" not in (b0.self_ty or "") or b0.kind == "closure":
+            continue
+        b = core.inline_private(facts, b0, depth=3, max_blocks=200)
+        live = b.live_blocks()
+        # position variables: one definition from bits(), one `pos = pos - X`
+        for l in range(len(b.locals)):
+            ds = [d for d in b.defs().get(l, []) if d[1] in live]
+            if len(ds) != 2:
+                continue
+            init = [d for d in ds if d[0] == "call" and core.callee_name(d[2]) == "bits"]
+            upd = [d for d in ds if d[0] == "assign"]
+            if len(init) != 1 or len(upd) != 1:
+                continue
+            rv = upd[0][3]["rv"]
+            if rv["k"] != "use" or rv["op"]["k"] == "const":
+                continue
+            ul = rv["op"]["place"]["local"]
+            sub = _binop_of(b, ul) if not rv["op"]["place"]["proj"] else (b.defs()[ul][0][3]["rv"] if len(b.defs().get(ul, [])) == 1 and b.defs()[ul][0][0] == "assign" else None)
+            if not sub or sub.get("k") != "binop" or not sub["op"].startswith("Sub"):
+                continue
+            if core.op_local(sub["a"]) is None or _croot(b, core.op_local(sub["a"])) != l and core.op_local(sub["a"]) != l:
+                continue
+            step = core.op_local(sub["b"])
+            if step is None:
+                continue
+            # the digit width read from the position: ((pos - 1) % BITS) + 1   (or  & (BITS - 1))
+            widths = set()
+            for i, si, st in b.stmts():
+                if i not in live or st["k"] != "assign":
+                    continue
+                r2 = st["rv"]
+                if r2["k"] == "binop" and r2["op"].startswith("Add") and core.op_const(r2["b"]) == 1 and core.op_local(r2["a"]) is not None:
+                    m = _binop_of(b, core.op_local(r2["a"]))
+                    if m and m["op"] in ("Rem", "BitAnd") and core.op_local(m["a"]) is not None:
+                        s1 = _binop_of(b, core.op_local(m["a"]))
+                        if s1 and s1["op"].startswith("Sub") and core.op_const(s1["b"]) == 1 and core.op_local(s1["a"]) is not None and (core.op_local(s1["a"]) == l or _croot(b, core.op_local(s1["a"])) == l):
+                            widths.add(st["place"]["local"])
+            if not widths:
+                continue
+            n += 1
+            key = "%s|position" % b0.path
+            wroots = set()
+            for w in widths:
+                wroots.add(w)
+                wroots.add(_croot(b, w) if not isinstance(_croot(b, w), tuple) else w)
+                # `.0` consumers: locals copied from the tuple
+                for i2, si2, s2 in b.stmts():
+                    if s2["k"] == "assign" and s2["rv"]["k"] == "use" and s2["rv"]["op"]["k"] != "const":
+                        p2 = s2["rv"]["op"]["place"]
+                        if p2["local"] == w and p2["proj"]:
+                            wroots.add(s2["place"]["local"])
+            def _norm(x):
+                r_ = _croot(b, x)
+                return r_[1] if isinstance(r_, tuple) else r_
+
+            sroot = _norm(step)
+            ok = step in wroots or sroot in wroots or any(_norm(w_) == sroot for w_ in wroots)
+            if ok:
+                res.ok("R9-float-position", key, {"step": "the digit's own width"})
+            else:
+                res.fail(Finding("R9-float-position", key, "the digit position of the float conversion is moved on by something other than the width it just computed for the digit (line %s): after the 64-bit window fills in the middle of a digit, later digits count as partial digits and only their low bits can set the round-to-odd bit - values of three or more digits round a more-than-half case as a tie" % upd[0][3]["span"]["line"], b0, upd[0][3]["span"]["line"]))
+    if n == 0:
+        res.note("R9-float-position: no position variable of the shape `bits -= step` with `(bits - 1) % BITS + 1` found in to_f64/to_f32 - not decided")
+    res.count("float conversion position variables", n)
+    res.clause("R9-float: the digit position of to_f64/to_f32 advances by the width computed for the digit (so every later digit is a full digit for the sticky test)")
